@@ -563,8 +563,14 @@ func (l *Logger) rotateFileLocked() {
 	// Close current file
 	l.currentFile.Close()
 
-	// Rename with timestamp
-	rotatedPath := fmt.Sprintf("%s.%s", l.filePath, time.Now().Format("20060102-150405"))
+	// Rename with timestamp. The stamp has one-second resolution: a second rotation
+	// within the same second must not replace the file (or the compressed file) the
+	// first one left behind, so a numeric suffix is added until the name is free.
+	stamp := time.Now().Format("20060102-150405")
+	rotatedPath := fmt.Sprintf("%s.%s", l.filePath, stamp)
+	for n := 1; rotatedNameTaken(rotatedPath); n++ {
+		rotatedPath = fmt.Sprintf("%s.%s.%d", l.filePath, stamp, n)
+	}
 	os.Rename(l.filePath, rotatedPath)
 
 	// Compress if enabled
@@ -582,6 +588,16 @@ func (l *Logger) rotateFileLocked() {
 	l.currentFile = f
 	l.writer = f
 	l.currentSize = 0
+}
+
+// rotatedNameTaken reports whether a rotated log file of that name exists,
+// compressed, uncompressed or while it is being compressed.
+func rotatedNameTaken(path string) bool {
+	if _, err := os.Lstat(path); err == nil {
+		return true
+	}
+	_, err := os.Lstat(path + ".gz")
+	return err == nil
 }
 
 // compressFile compresses a rotated log file
